@@ -16,7 +16,7 @@ Definition open_tag (a : asite) : Z :=
 Definition site_fails (a : asite) : bool :=
   match lookup_var vars (a_var a) with
   | None => false
-  | Some e => negb (site_ok e a) && negb (allowed allow a)
+  | Some e => negb (site_ok e a) && negb (allowed allow a) && negb (allowed_unreached allow_unreached a)
   end.
 
 Fixpoint rows_from (i : Z) (l : list asite) : list (Z * Z * Z * Z) :=
